@@ -612,6 +612,9 @@ def api(g, cx, op, st):
         o = cx.call("gfa.validate() after edge setter", g.validate)
     elif c == "l.diff":
         o = cx.call("line.diff/==", lambda: (l == lines[0], l.diff(lines[0]) if lines[0].record_type == l.record_type else None))
+        other = lines[(op["li"] * 7 + 3) % len(lines)]
+        cx.call("line.diff(other line)", l.diff, other)
+        cx.call("line.diffscript(other line, %r)" % a, l.diffscript, other, a)
     elif c == "l.refs":
         o = cx.call("line.refstr/all_references", lambda: (l.refstr(), l.all_references if l.record_type != "P" else None))
     elif c == "l.rename":
